@@ -157,7 +157,7 @@ reg(Spec('C08', ['c08:C08'],
 reg(Spec('C09', ['c09:C09'],
          quick=[('DUPLEX', 1200), ('RACE', 800), ('ADV', 2000), ('MISUSE', 600)],
          thorough=[('DUPLEX', 30000), ('RACE', 20000), ('ADV', 50000), ('MISUSE', 15000)],
-         overrides={'*': {'top_ids': 0.08}},
+         overrides={'*': {'top_ids': 0.08, 'adv_repromise': 0.12, 'push': 0.15}},
          rule=R_RUN + 'non-trivial = an id at a boundary / a skipped id was used, a header call failed, or a peer frame addressed an idle, skipped or closed id' + R_DISTINCT))
 reg(Spec('C10', ['c10:C10'],
          quick=[('RACE', 2500), ('DUPLEX', 1000), ('ADV', 2500)],
@@ -169,7 +169,8 @@ reg(Spec('C10', ['c10:C10'],
 reg(Spec('C22', ['c22:C22'],
          quick=[('RACE', 2000), ('DUPLEX', 800), ('ADV', 1500), ('MISUSE', 500)],
          thorough=[('RACE', 50000), ('DUPLEX', 20000), ('ADV', 40000), ('MISUSE', 10000)],
-         overrides={'*': {'push': 0.2, 'settings_bias': {2: [0, 0, 1]}, 'at_limit_attempts': 0.4, 'ops_boost': {'push': 6, 'settings': 2}}},
+         overrides={'*': {'push': 0.2, 'settings_bias': {2: [0, 0, 1]}, 'at_limit_attempts': 0.4, 'ops_boost': {'push': 6, 'settings': 2},
+                          'misuse': 0.15, 'misuse_focus': [4, 4, 4, 0], 'aftermath': 0.4, 'adv_repromise': 0.1, 'empty_settings': 0.2}},
          rule=R_RUN + 'non-trivial = a push met a disabled ENABLE_PUSH (either side) or a closed parent' + R_DISTINCT))
 reg(Spec('C23', ['c23:C23'],
          quick=[('DUPLEX', 1500), ('ADV', 2000), ('MISUSE', 500), ('HDR', 800)],
@@ -187,7 +188,7 @@ reg(Spec('C24', ['c24:C24'],
 reg(Spec('C11', ['c11:C11'],
          quick=[('RACE', 2500), ('DUPLEX', 1000), ('ADV', 1000), ('CORRUPT', 600), ('UPGRADE', 600)],
          thorough=[('RACE', 60000), ('DUPLEX', 20000), ('ADV', 20000), ('CORRUPT', 20000), ('UPGRADE', 10000)],
-         overrides={'*': {'ops_boost': {'settings': 5}, 'settings_churn': 0.15}},
+         overrides={'*': {'ops_boost': {'settings': 5}, 'settings_churn': 0.15, 'empty_settings': 0.15}},
          rule=R_RUN + 'non-trivial = at least two SETTINGS frames of one endpoint were outstanding at once' + R_DISTINCT))
 reg(Spec('C12', ['c12:C12'],
          quick=[('ADV', 2500), ('CORRUPT', 1500), ('MISUSE', 800), ('FLOW', 600), ('UPGRADE', 400)],
@@ -229,7 +230,8 @@ reg(Spec('C21', ['c21:C21'],
                       'a received GOAWAY discards pending output by design, C19)']))
 
 reg(Spec('C28', [],
-         overrides={'*': {'hdr_variety': 1.0, 'ops_boost': {'altsvc': 4, 'settings': 2, 'push': 2}, 'misuse': 0.15}},
+         overrides={'*': {'hdr_variety': 1.0, 'ops_boost': {'altsvc': 10, 'settings': 2, 'push': 2}, 'misuse': 0.15, 'mixed_host': 0.9,
+                          'mixed_both': True}},
          quick=[('DUPLEX', 500), ('RACE', 300), ('HDR', 300), ('CORRUPT', 300), ('ADV', 300), ('MISUSE', 300)],
          thorough=[('DUPLEX', 6000), ('RACE', 4000), ('HDR', 4000), ('CORRUPT', 4000), ('ADV', 4000), ('MISUSE', 4000), ('FLOW', 2000), ('UPGRADE', 2000)],
          rule='one evaluation = one simulated run whose recorded trace is re-executed in fresh interpreter processes under other PYTHONHASHSEED values; '
